@@ -61,13 +61,14 @@ def random_prog(r, nmem=3, nplain=2, nvar=2, hidden_p=0.15, forms=("bare", "bare
                 n["deco"] = True
     # a plain leaf helper lives in the package's __init__ module
     if r.random() < init_p:
-        leaves = [n for n in fns if n["kind"] == "plain" and not n["hidden"] and all(q["to"][0] == "v" for q in n["refs"])
+        # (it may itself call functions of the module: through the module object bound at the end of __init__)
+        leaves = [n for n in fns if n["kind"] == "plain" and not n["hidden"] and not n.get("deco")
                   and all(q["form"] == "bare" for m_ in fns for q in m_["refs"] if q["to"] == n["name"])
                   and any(q["to"] == n["name"] for m_ in fns for q in m_["refs"])]
         if leaves:
             lf = r.choice(leaves)
             lf["where"] = "init"
-            lf["refs"] = []
+            lf["refs"] = [{"to": q["to"], "form": "initmod"} for q in lf["refs"] if q["to"][0] in "mh" and q["to"] != lf["name"]]
     # two static methods with the same bare name, both called by one function
     if r.random() < twins_p:
         user = r.choice([n for n in fns if n.get("where") != "init"])
@@ -194,6 +195,8 @@ def fn_source(n, twin=False, decorate=True):
             x = "wrapped_%s(a)" % to
         elif r["form"] == "wrapped2":
             x = "wrapped2_%s(a)" % to
+        elif r["form"] == "initmod":
+            x = "_mod.%s(a)" % to
         else:
             x = "%s(a)" % to
         if r.get("pass"):          # a memento function handed over as an argument value
@@ -253,6 +256,7 @@ def _mk(nm, dv):
 
 
 _self = sys.modules[__name__]
+_mod = _self
 
 '''
 
@@ -304,6 +308,8 @@ def init_source(prog):
     for n in prog["nodes"]:
         if n["kind"] in ("mem", "plain") and n.get("where") == "init":
             out.append("\n" + fn_source(n) + "\n")
+    if any(n.get("where") == "init" and n.get("refs") for n in prog["nodes"] if n["kind"] in ("mem", "plain")):
+        out.append("\nimport %s as _mod      # (at the end: the module imports names of this package)\n" % MOD)
     return "".join(out)
 
 
